@@ -11,34 +11,6 @@ import (
 	"github.com/gr33nbl00d/caddy-revocation-validator/zz_verif/verifrt"
 )
 
-type bodyModel struct {
-	data   []byte
-	pos    int
-	chunk  int
-	closed bool
-}
-
-func (b *bodyModel) Read(p []byte) (int, error) {
-	if len(p) == 0 {
-		return 0, nil
-	}
-	rem := len(b.data) - b.pos
-	if rem <= 0 {
-		return 0, io.EOF
-	}
-	k := len(p)
-	if k > rem {
-		k = rem
-	}
-	if b.chunk > 0 && k > b.chunk {
-		k = b.chunk
-	}
-	copy(p[:k], b.data[b.pos:b.pos+k])
-	b.pos += k
-	return k, nil
-}
-func (b *bodyModel) Close() error { b.closed = true; return nil }
-
 // VerifC02_Transport: the REAL executeHttpRequest over a modelled HTTP client. Whatever the responder's
 // framing - Content-Length given, or a chunked / streamed answer (ContentLength -1), delivered in one
 // piece or in small pieces - the bytes handed to the response parser are exactly the body the responder
